@@ -268,6 +268,10 @@ fn detect_line_ending(text: &str) -> &'static str {
 }
 
 fn split_lines(text: &str) -> (Vec<String>, bool) {
+    if text.is_empty() {
+        // An empty file has no lines (not one empty line).
+        return (Vec::new(), false);
+    }
     let trailing = text.ends_with('\n');
     let mut lines = text
         .split('\n')
